@@ -267,7 +267,7 @@ impl<T: Send> Drop for RendezvousSyncReceiver<T> {
 impl<T: Send> RendezvousAsyncSender<T> {
   /// Sends a value, resolving once the receiver takes it or the channel closes.
   pub fn send(&self, item: T) -> SendFuture<'_, T> {
-    SendFuture::new(&self.shared, item)
+    SendFuture::new(&self.shared, item, self.closed.load(Ordering::Relaxed))
   }
 
   /// Attempts to hand off to an already-waiting receiver without awaiting.
@@ -352,7 +352,7 @@ impl<T: Send> RendezvousAsyncReceiver<T> {
   /// Receives a value, resolving once a sender hands one off or the channel
   /// disconnects.
   pub fn recv(&self) -> RecvFuture<'_, T> {
-    RecvFuture::new(&self.shared)
+    RecvFuture::new(&self.shared, self.closed.load(Ordering::Relaxed))
   }
 
   /// Attempts to take from an already-waiting sender without awaiting.
@@ -435,16 +435,19 @@ pub struct SendFuture<'a, T: Send> {
   slot: Option<T>,
   state: AtomicU8,
   registered: bool,
+  /// The handle had been `close()`d when this future was created.
+  handle_closed: bool,
   _pin: PhantomPinned,
 }
 
 impl<'a, T: Send> SendFuture<'a, T> {
-  fn new(shared: &'a Arc<MpscRvShared<T>>, item: T) -> Self {
+  fn new(shared: &'a Arc<MpscRvShared<T>>, item: T, handle_closed: bool) -> Self {
     Self {
       shared,
       slot: Some(item),
       state: AtomicU8::new(WAITING),
       registered: false,
+      handle_closed,
       _pin: PhantomPinned,
     }
   }
@@ -455,6 +458,10 @@ impl<'a, T: Send> Future for SendFuture<'a, T> {
 
   fn poll(self: Pin<&mut Self>, cx: &mut Context<'_>) -> Poll<Self::Output> {
     let this = unsafe { self.get_unchecked_mut() };
+    // A handle that was itself closed rejects further operations.
+    if this.handle_closed && !this.registered {
+      return Poll::Ready(Err(SendError::Closed));
+    }
     if this.slot.is_none() && !this.registered {
       return Poll::Ready(Ok(()));
     }
@@ -484,16 +491,19 @@ pub struct RecvFuture<'a, T: Send> {
   dest: Option<T>,
   state: AtomicU8,
   registered: bool,
+  /// The handle had been `close()`d when this future was created.
+  handle_closed: bool,
   _pin: PhantomPinned,
 }
 
 impl<'a, T: Send> RecvFuture<'a, T> {
-  fn new(shared: &'a Arc<MpscRvShared<T>>) -> Self {
+  fn new(shared: &'a Arc<MpscRvShared<T>>, handle_closed: bool) -> Self {
     Self {
       shared,
       dest: None,
       state: AtomicU8::new(WAITING),
       registered: false,
+      handle_closed,
       _pin: PhantomPinned,
     }
   }
@@ -504,6 +514,10 @@ impl<'a, T: Send> Future for RecvFuture<'a, T> {
 
   fn poll(self: Pin<&mut Self>, cx: &mut Context<'_>) -> Poll<Self::Output> {
     let this = unsafe { self.get_unchecked_mut() };
+    // A handle that was itself closed rejects further operations.
+    if this.handle_closed && !this.registered {
+      return Poll::Ready(Err(RecvError::Disconnected));
+    }
     this
       .shared
       .poll_recv(cx, &this.state, &mut this.dest, &mut this.registered)
